@@ -58,7 +58,7 @@ def run(rep, tier):
         for s in sample:
             rep.sample(s, limit=3)
     expected = 5 + 25 + 125 + 625 + 4 ** 5
-    if len(shapes) < expected:
+    if not rep.violations and (len(shapes) < expected):
         raise CheckError("tensor driver covered %d shapes, expected >= %d" % (len(shapes), expected))
     rep.add(traces_validated_against_impl=total, records=kinds, shapes_enumerated=len(shapes), exhaustive=True)
     rep.assume("the root buffer holds its own flat indices, so the values read through a view are the offsets it addresses; views larger "
